@@ -223,6 +223,19 @@ func ruleALPNAndSRTP(c *Ctx, r *Report) {
 		for _, st := range c.StoresTo(tCom, "NegotiatedProtocol") {
 			if st.Fn == s.Fn {
 				ok := allLeaves(c.Origins(st.Val, 0), func(v ssa.Value) bool { return isCallResult(v, nameIs("pkg/protocol/extension.ALPNProtocolSelection")) })
+				// ... or what the finalised ServerHello says (the selection as sent, after the
+				// message hook), or the reset to "no protocol" that precedes it
+				if !ok {
+					if k, isK := st.Val.(*ssa.Const); isK && k.Value != nil && k.Value.ExactString() == `""` {
+						ok = true
+					} else {
+						fins := findCalls(s.Fn, nameIs("internal/negotiation.FinalizeServerHello"))
+						ok = len(fins) == 1 && instrDominates(fins[0], st.Instr) && allLeaves(c.Origins(st.Val, 0), func(l ssa.Value) bool {
+							o, f, _, okF := fieldLoad(l)
+							return okF && f == "Protocol" && strings.HasSuffix(o, "extension.ALPNSelection")
+						})
+					}
+				}
 				r.Check(ok, rule, short(s.Fn)+":alpn-stored", c.ipos(st.Instr), "NegotiatedProtocol = selection result", "the server records an application protocol that is not the selection result (the two sides can disagree)")
 				// stored on every path that put the protocol on the wire: the store dominates the success exit
 				// whenever the selection is non-empty: same guard as the extension append
